@@ -1,26 +1,269 @@
 // Harness for C12: close-point enumeration. Producer scenarios are run once to count the hook events, then
 // re-run with AsyncClose issued after the k-th event for k spread over the run (fault scripts active);
-// consumer scenarios close partition consumers / the consumer after the k-th delivered message, twice.
+// consumer scenarios close partition consumers / the consumer after the k-th delivered message, twice; group
+// scenarios cancel or Close during a session; client scenarios Close with calls in flight, then again; offset-manager
+// scenarios close partition managers and the manager while the coordinator fails.
 // Oracle: Close returns within the bound, public channels are closed, nothing panics, every submitted message
-// still gets exactly one event.
+// still gets exactly one event.  The consumer / group / client scenarios also record the lifecycle hook events
+// (harness/life) for the Lean acceptors of the shutdown hand-shakes.
+//
+// The four scenario families run in separate process groups under a small supervisor: a panic in a goroutine
+// that nobody can recover from (sarama starts some without withRecover) kills only its worker process; the
+// supervisor reports it as an oracle failure naming the scenario that was running (breadcrumb file).
 package main
 
 import (
+	"encoding/json"
+	"fmt"
+	"os"
+	"os/exec"
+	"path/filepath"
+	"sort"
+	"strings"
+	"time"
+
 	"github.com/Shopify/sarama"
 	"verif/harness/cli"
 	"verif/harness/cons"
 	"verif/harness/grp"
 	"verif/harness/hlib"
 	"verif/harness/life"
+	"verif/harness/omc"
 	"verif/harness/pipe"
 )
 
+var families = []string{"pipe", "cons", "grp", "cli", "omc"}
+
+const rule = pipe.Rule + " || " + cons.Rule + " || " + grp.Rule + " || " + cli.Rule + " || " + omc.Rule + " || C12: every producer scenario is re-run with AsyncClose after the k-th hook event for k spread over the run"
+
 func main() {
+	fam := os.Getenv("C12_FAMILY")
+	if fam == "" {
+		supervise()
+		return
+	}
 	run := hlib.StartParallel("C12", 14)
 	life.IDMark = sarama.VerifIDMark // lifecycle hook events are recorded (consumer, group, client scenarios)
-	pipe.RunAll(run, "C12", []string{"C12:", "C01:"}, 0)
-	cons.RunAll(run, "C12", []string{"C12:"}, 0)
-	grp.RunAll(run, "C12", []string{"C12:"}, 0)
-	cli.RunAll(run, "C12", []string{"C12:"}, 0)
-	run.Finish(pipe.Rule + " || " + cons.Rule + " || " + grp.Rule + " || " + cli.Rule + " || C12: every producer scenario is re-run with AsyncClose after the k-th hook event for k spread over the run")
+	life.Watchdog(40*time.Second, func(sc string, d time.Duration) {
+		run.IOFail("C12:scenario-stuck", sc, fmt.Sprintf("the scenario did not finish within %v (every wait inside it is bounded by 8 s): its tear-down is wedged, the remaining scenarios of this worker were skipped", d.Round(time.Second)))
+		run.Count("scenario-stuck")
+		run.Finish(rule)
+		os.Exit(0)
+	})
+	switch fam {
+	case "pipe":
+		pipe.RunAll(run, "C12", []string{"C12:", "C01:"}, 0)
+	case "cons":
+		cons.RunAll(run, "C12", []string{"C12:"}, 0)
+	case "grp":
+		grp.RunAll(run, "C12", []string{"C12:"}, 0)
+	case "cli":
+		cli.RunAll(run, "C12", []string{"C12:"}, 0)
+	case "omc":
+		omc.RunAll(run, "C12", []string{"C12:"}, 0)
+	}
+	run.Finish(rule)
 }
+
+// supervise runs every family as a child process (which fans out into worker processes itself) with its own
+// output directory, then merges ops.txt / impl.txt / io.jsonl / stats.json into the requested directory.
+func supervise() {
+	out := ""
+	var rest []string
+	args := os.Args[1:]
+	for i := 0; i < len(args); i++ {
+		a := args[i]
+		switch {
+		case a == "-out" || a == "--out":
+			if i+1 < len(args) {
+				out = args[i+1]
+				i++
+			}
+		case strings.HasPrefix(a, "-out=") || strings.HasPrefix(a, "--out="):
+			out = a[strings.Index(a, "=")+1:]
+		default:
+			rest = append(rest, a)
+		}
+	}
+	if out == "" {
+		fmt.Fprintln(os.Stderr, "need -out")
+		os.Exit(2)
+	}
+	_ = os.MkdirAll(out, 0o755)
+	var dirs []string
+	var extraIO []string
+	crashed := 0
+	replayCount := replaySeeds(rest)
+	for _, f := range families {
+		d := filepath.Join(out, "fam_"+f)
+		_ = os.RemoveAll(d)
+		famArgs := append([]string{"-out", d}, rest...)
+		if replayCount != nil {
+			// replay: only the families the replayed lines belong to, with no more workers than cases
+			// (hlib's merge cannot cope with a worker that ran no case)
+			n := replayCount[f]
+			if n == 0 {
+				continue
+			}
+			if n > 14 {
+				n = 14
+			}
+			famArgs = append(famArgs, "-workers", fmt.Sprint(n))
+		}
+		cmd := exec.Command(os.Args[0], famArgs...)
+		cmd.Env = append(os.Environ(), "C12_FAMILY="+f)
+		var tail tailBuf
+		cmd.Stdout, cmd.Stderr = &tail, &tail
+		err := cmd.Run()
+		if err == nil {
+			dirs = append(dirs, d)
+			continue
+		}
+		// some worker died: keep what the surviving workers wrote, name the scenarios the dead ones were running
+		ws, _ := filepath.Glob(filepath.Join(d, "w*"))
+		sort.Strings(ws)
+		if len(ws) == 0 {
+			ws = []string{d} // single-process family run
+		}
+		found := false
+		for _, w := range ws {
+			if _, e := os.Stat(filepath.Join(w, "stats.json")); e == nil {
+				dirs = append(dirs, w)
+				continue
+			}
+			cur, _ := os.ReadFile(filepath.Join(w, "current.txt"))
+			input := strings.TrimSpace(string(cur))
+			if input == "" {
+				input = "(family " + f + ", scenario unknown)"
+			}
+			found = true
+			crashed++
+			b, _ := json.Marshal(map[string]string{"sig": "C12:process-crashed", "input": input,
+				"detail": "the harness worker died while running this scenario (unrecovered panic in a goroutine?): " + tail.String()})
+			extraIO = append(extraIO, string(b))
+		}
+		if !found {
+			fmt.Fprintf(os.Stderr, "family %s failed: %v\n%s\n", f, err, tail.String())
+			os.Exit(1)
+		}
+	}
+	cat := func(name string, extra []string) {
+		o, _ := os.Create(filepath.Join(out, name))
+		defer o.Close()
+		for _, d := range dirs {
+			b, _ := os.ReadFile(filepath.Join(d, name))
+			o.Write(b)
+		}
+		for _, l := range extra {
+			o.WriteString(l + "\n")
+		}
+	}
+	cat("ops.txt", nil)
+	cat("impl.txt", nil)
+	cat("io.jsonl", extraIO)
+	// stats
+	merged := map[string]interface{}{}
+	dist := map[string]int{}
+	distinct := 0
+	var samples []interface{}
+	evals, iof := 0, crashed
+	for _, d := range dirs {
+		var st map[string]interface{}
+		b, _ := os.ReadFile(filepath.Join(d, "stats.json"))
+		if json.Unmarshal(b, &st) != nil {
+			continue
+		}
+		for k, v := range st {
+			switch k {
+			case "evaluations":
+				evals += int(v.(float64))
+			case "io_failures":
+				iof += int(v.(float64))
+			case "distinct_nontrivial":
+				distinct += int(v.(float64)) // the families' keys are disjoint
+			case "distribution":
+				for b, n := range v.(map[string]interface{}) {
+					dist[b] += int(n.(float64))
+				}
+			case "samples":
+				l := v.([]interface{})
+				if len(l) > 3 {
+					l = l[:3]
+				}
+				samples = append(samples, l...)
+			case "workers":
+			default:
+				if f, ok := v.(float64); ok && k != "seed" {
+					if prev, ok := merged[k].(float64); ok {
+						f += prev
+					}
+					merged[k] = f
+				} else {
+					merged[k] = v
+				}
+			}
+		}
+	}
+	if crashed > 0 {
+		dist["worker-process-crashed"] = crashed
+	}
+	merged["evaluations"], merged["io_failures"], merged["distinct_nontrivial"] = evals, iof, distinct
+	merged["distribution"], merged["samples"], merged["rule"] = dist, samples, rule
+	b, _ := json.MarshalIndent(merged, "", " ")
+	_ = os.WriteFile(filepath.Join(out, "stats.json"), b, 0o644)
+	for _, f := range families {
+		os.RemoveAll(filepath.Join(out, "fam_"+f))
+	}
+}
+
+// replaySeeds counts, per family, the cases a replay file expands to (nil when not replaying).
+func replaySeeds(args []string) map[string]int {
+	file := ""
+	for i, a := range args {
+		if (a == "-replay" || a == "--replay") && i+1 < len(args) {
+			file = args[i+1]
+		} else if strings.HasPrefix(a, "-replay=") || strings.HasPrefix(a, "--replay=") {
+			file = a[strings.Index(a, "=")+1:]
+		}
+	}
+	if file == "" {
+		return nil
+	}
+	res := map[string]int{}
+	b, _ := os.ReadFile(file)
+	for _, l := range strings.Split(string(b), "\n") {
+		t := strings.Fields(l)
+		if len(t) < 2 || strings.HasPrefix(t[0], "#") {
+			continue
+		}
+		tag := t[0]
+		if tag == "lc" || tag == "lreset" {
+			tag = strings.SplitN(t[1], ":", 2)[0]
+		}
+		switch tag {
+		case "sc":
+			res["pipe"] += 20
+		case "cs":
+			res["cons"] += 20
+		case "gs":
+			res["grp"] += 10
+		case "cl":
+			res["cli"] += 30
+		case "om":
+			res["omc"] += 20
+		}
+	}
+	return res
+}
+
+// tailBuf keeps the last few KB written to it.
+type tailBuf struct{ b []byte }
+
+func (t *tailBuf) Write(p []byte) (int, error) {
+	t.b = append(t.b, p...)
+	if len(t.b) > 6000 {
+		t.b = t.b[len(t.b)-4000:]
+	}
+	return len(p), nil
+}
+func (t *tailBuf) String() string { return string(t.b) }
